@@ -182,6 +182,108 @@ def traversal_shape():
     return obs
 
 
+# ---- _analyze_variables: every Path reference is recorded as a variable, and as a global exactly
+# ---- when its root name is not in scope; every child expression is analysed, inside the scope
+# ---- the expression opens (lambda parameters) and not beyond it
+
+import z3  # noqa: E402
+
+from contracts.common import *  # noqa: F403,E402
+from pyvc.contract import contract  # noqa: E402
+from pyvc.state import *  # noqa: F403,E402
+from pyvc.u import *  # noqa: F403,E402
+
+SA = "liquid.static_analysis"
+
+
+@contract(f"{SA}:_analyze_variables", prop="C19", name="_analyze_variables[Path reference]")
+def analyze_path(c):
+    in_scope = c.bool("root_in_scope")
+    root = c.str("root_name")
+    tok = c.obj("liquid.token:Token", "token", start_index=c.int("start_index"), kind=const("word"), value=root, source=c.str("source"))
+    expr = c.obj("liquid.builtin.expressions.path:Path", "path", token=tok, path=c.st.alloc(HList(items=[root, c.str("segment1")])))
+    scope = c.obj(f"{SA}:_StaticScope", "scope")
+    globs = c.obj(f"{SA}:_VariableMap", "globals")
+    variables = c.obj(f"{SA}:_VariableMap", "variables")
+
+    def add(eng, st, a, k):
+        st.log.append(("add", a[0], a[1]))
+        # whatever add() returns (None today) must not decide whether the global is recorded
+        return [(st.fork(), NONE), (st.fork(), VBool(z3.BoolVal(True))), (st.fork(), VBool(z3.BoolVal(False)))]
+
+    def contains(eng, st, a, k):
+        st.log.append(("scope-test", box(a[1])))
+        return [(st, VBool(in_scope.t))]
+    c.summary(f"{SA}:_VariableMap.add", add)
+    c.summary(f"{SA}:_StaticScope.__contains__", contains)
+    c.summary("liquid.builtin.expressions.path:Path.children", lambda eng, st, a, k: [(st, st.alloc(HList(items=[])))])
+    c.summary("liquid.builtin.expressions.path:Path.scope", lambda eng, st, a, k: [(st, st.alloc(HList(items=[])))])
+    c.summary("liquid.expression:Expression.scope", lambda eng, st, a, k: [(st, st.alloc(HList(items=[])))])
+    c.call(expr, c.str("template_name"), scope, globs, variables)
+
+    def post(r):
+        adds = [e for e in r.st.log if e[0] == "add"]
+        to_vars = [e for e in adds if e[1] == variables]
+        to_globs = [e for e in adds if e[1] == globs]
+        tests = [e for e in r.st.log if e[0] == "scope-test"]
+        ok_shape = len(to_vars) == 1 and len(to_globs) <= 1 and len(tests) == 1 and (not to_globs or to_globs[0][2] == to_vars[0][2])
+        if not ok_shape:
+            return z3.BoolVal(False)
+        return z3.And(tests[0][1] == U.str(root.t), z3.BoolVal(bool(to_globs)) == z3.Not(in_scope.t))
+    c.ensures("a-path-is-recorded-as-a-variable-and-as-a-global-exactly-when-its-root-is-out-of-scope", post)
+    c.raises()
+    c.replay("code", code=REPLAY)
+
+
+def _analyze_children(opens_scope):
+    @contract(f"{SA}:_analyze_variables", prop="C19", name=f"_analyze_variables[children, expression {'opens a scope' if opens_scope else 'opens no scope'}]")
+    def ac(c):
+        kids = [c.obj("liquid.expression:Expression", f"child{i}") for i in range(2)]
+        expr = c.obj("liquid.expression:Expression", "expr")
+        scope = c.obj(f"{SA}:_StaticScope", "scope", stack=c.st.alloc(HList(items=[c.st.alloc(HList(items=[]))])))
+        globs = c.obj(f"{SA}:_VariableMap", "globals")
+        variables = c.obj(f"{SA}:_VariableMap", "variables")
+        names = c.st.alloc(HList(items=[c.str("param")])) if opens_scope else c.st.alloc(HList(items=[]))
+        c.summary("liquid.expression:Expression.children", lambda eng, st, a, k: [(st, st.alloc(HList(items=list(kids))))])
+        c.summary("liquid.expression:Expression.scope", lambda eng, st, a, k: [(st, names)])
+
+        top = []
+
+        def rec(eng, st, a, k):
+            if a[0] == expr and not top:
+                top.append(1)
+                return None   # the call under contract itself
+            depth = len(st.deref(st.deref(scope).fields["stack"]).items)
+            st.log.append(("analysed", a[0], depth, a[2], a[3], a[4]))
+            return [(st, NONE)]
+        c.summary(f"{SA}:_analyze_variables", rec)
+        c.summary("builtin:set", lambda eng, st, a, k: [(st, a[0])])
+        c.call(expr, c.str("template_name"), scope, globs, variables)
+        want_depth = 2 if opens_scope else 1
+
+        def post(r):
+            seen = [e for e in r.st.log if e[0] == "analysed"]
+            ok = [e[1] for e in seen] == kids and all(e[2] == want_depth and e[3] == scope and e[4] == globs and e[5] == variables for e in seen)
+            return z3.BoolVal(ok and len(r.st.deref(r.st.deref(scope).fields["stack"]).items) == 1)
+        c.ensures("every-child-is-analysed-inside-the-scope-the-expression-opens-and-the-scope-is-closed-again", post)
+        c.raises()
+        c.replay("code", code=REPLAY)
+
+
+for _os in (True, False):
+    _analyze_children(_os)
+
+
+# ---- the analysis has a synchronous and an asynchronous entry point; the obligations of this file
+# ---- are read off the synchronous code, so the asynchronous traversal must be congruent to it
+from contracts.twins import pair_obligations  # noqa: E402
+
+
+@structural("C19", "async-analysis-is-the-sync-analysis")
+def async_twin():
+    return pair_obligations(lambda m: m == "liquid.static_analysis", min_pairs=1, replay=REPLAY)
+
+
 not_covered("C19", "dynamic partial names (the analysis evaluates them statically by design)", "names bound into namespaces vs block_scope()/template_scope() (bounded check)",
             "the ghost-scope obligation on the partial de-duplication (first visit's scope must be contained in later visits' scope) is decided by the bounded dynamic-reads check")
 
